@@ -240,6 +240,7 @@ type syWorld struct {
 	gone       bool // the set no longer exists in the API: a status write answers NotFound
 	setIdx     cache.Indexer
 	podLister  *orderedPodLister
+	inPrelude  bool // an earlier reconcile on the same controller: not logged, never faulted
 	// graceful: a pod delete only stamps a deletion timestamp (the world engine removes the pod at its next settle)
 	graceful bool
 }
@@ -319,6 +320,9 @@ func errOfKind(kind string, a k8stesting.Action, key string) error {
 func (w *syWorld) react(a k8stesting.Action) (bool, runtime.Object, error) {
 	if a.GetResource().Resource == "events" {
 		return true, nil, nil
+	}
+	if w.inPrelude {
+		return false, nil, nil
 	}
 	if a.GetNamespace() == "" && (a.GetVerb() == "get" || a.GetVerb() == "update") && a.GetResource().Resource == "controllerrevisions" {
 		// a get / update of a namespaced object with an empty namespace and name never leaves the REST client
@@ -539,7 +543,7 @@ func buildSyWorld(c *syCase) *syWorld {
 		}
 		pcObjs = append(pcObjs, fresh)
 	}
-	w.pc = pcfake.NewSimpleClientset(pcObjs...)
+	w.pc = pcfake.NewSimpleClientset()
 	// revisions
 	var kubeObjs []runtime.Object
 	for _, r := range c.store {
@@ -618,20 +622,94 @@ func buildSyWorld(c *syCase) *syWorld {
 		ObjectMeta: metav1.ObjectMeta{Name: rcSetName + "-elsewhere", Namespace: syElsewhere, UID: "rev-elsewhere",
 			Labels: map[string]string{"app": rcSetName, helper.UpgradeToAdvancedStatefulSetAnn: rcSetName}},
 		Data: runtime.RawExtension{Raw: syPatchOf(c, c.tmpl)}, Revision: 1})
-	w.kube = kubefake.NewSimpleClientset(kubeObjs...)
+	// The clients start EMPTY: the controller first lives through an earlier reconcile of a set of the same namespace and name
+	// (prelude), then the API and the caches are replaced by the case's world. A controller keeps nothing between reconciles
+	// that may matter, so the measured sync must not notice.
+	w.kube = kubefake.NewSimpleClientset()
 	w.kube.PrependReactor("*", "*", w.react)
 	w.pc.PrependReactor("*", "*", w.react)
 	setIdx := cache.NewIndexer(cache.MetaNamespaceKeyFunc, cache.Indexers{cache.NamespaceIndex: cache.MetaNamespaceIndexFunc})
-	_ = setIdx.Add(set)
 	w.setIdx = setIdx
 	pvcIdx := cache.NewIndexer(cache.MetaNamespaceKeyFunc, cache.Indexers{cache.NamespaceIndex: cache.MetaNamespaceIndexFunc})
+	w.podLister = &orderedPodLister{}
+	w.ctl = sts.VerifNewController(w.kube, w.pc, appslisters.NewStatefulSetLister(setIdx), w.podLister,
+		corelisters.NewPersistentVolumeClaimLister(pvcIdx), record.NewFakeRecorder(10000))
+	w.prelude(c, set)
+	for _, o := range pcObjs {
+		_ = w.pc.Tracker().Add(o)
+	}
+	for _, o := range kubeObjs {
+		_ = w.kube.Tracker().Add(o)
+	}
+	_ = setIdx.Add(set)
 	for _, o := range c.pvcCache {
 		_ = pvcIdx.Add(syClaim(o))
 	}
-	w.ctl = sts.VerifNewController(w.kube, w.pc, appslisters.NewStatefulSetLister(setIdx), &orderedPodLister{w.cpods},
-		corelisters.NewPersistentVolumeClaimLister(pvcIdx), record.NewFakeRecorder(10000))
+	w.podLister.pods = w.cpods
 	return w
 }
+
+// prelude: one reconcile of an earlier incarnation, on the same controller object, then everything it left is wiped.
+// Variant A (even cases): the same set (same uid and generation) before it was edited - not paused, not being deleted, one
+// replica, no orphan in sight, its history holding one revision. Variant B (odd cases): a predecessor that was deleted and
+// re-created under the same name - another uid, a higher generation, another selector and template.
+func (w *syWorld) prelude(c *syCase, set *apps.StatefulSet) {
+	w.inPrelude = true
+	defer func() { w.inPrelude = false }()
+	old := baseSet(rcSetName, 1, "img-"+c.tmpl)
+	old.UID, old.Generation = set.UID, set.Generation
+	old.Spec.VolumeClaimTemplates, old.Spec.Template.Spec.Containers[0].VolumeMounts = set.Spec.VolumeClaimTemplates, set.Spec.Template.Spec.Containers[0].VolumeMounts
+	lim := int32(c.lim)
+	old.Spec.RevisionHistoryLimit = &lim
+	part := int32(0)
+	old.Spec.UpdateStrategy = apps.StatefulSetUpdateStrategy{Type: apps.RollingUpdateStatefulSetStrategyType, RollingUpdate: &apps.RollingUpdateStatefulSetStrategy{Partition: &part}}
+	if (c.gen+c.r+len(c.pods))%2 == 1 {
+		old.UID, old.Generation = "uid-predecessor", set.Generation+5
+		old.Spec.Selector = &metav1.LabelSelector{MatchLabels: map[string]string{"app": "predecessor"}}
+		old.Spec.Template.Labels = map[string]string{"app": "predecessor"}
+		old.Spec.Template.Spec.Containers[0].Image = "img-predecessor"
+		old.Annotations = map[string]string{helper.DeleteSlotsAnn: "[0]"}
+	}
+	_ = w.pc.Tracker().Add(old.DeepCopy())
+	_ = w.setIdx.Add(old)
+	func() {
+		defer func() { _ = recover() }()
+		_ = w.ctl.VerifSync(rcNS + "/" + rcSetName)
+		// in one case of four also a reconcile that finds the set gone (usually the delete and the re-create, or the edit, reach
+		// the controller as ONE queue entry and no reconcile runs in between)
+		if (c.gen+2*c.r+len(c.store))%4 == 0 {
+			_ = w.setIdx.Delete(old)
+			_ = w.ctl.VerifSync(rcNS + "/" + rcSetName)
+		}
+	}()
+	// wipe
+	_ = w.setIdx.Delete(old)
+	_ = w.pc.Tracker().Delete(setsGVR, rcNS, rcSetName)
+	for _, ns := range []string{rcNS, syElsewhere} {
+		if l, err := w.kube.Tracker().List(podsGVR, podsGVK, ns); err == nil {
+			for _, p := range l.(*v1.PodList).Items {
+				_ = w.kube.Tracker().Delete(podsGVR, ns, p.Name)
+			}
+		}
+		if l, err := w.kube.Tracker().List(syRevsGVR, syRevsGVK, ns); err == nil {
+			for _, r := range l.(*kubeapps.ControllerRevisionList).Items {
+				_ = w.kube.Tracker().Delete(syRevsGVR, ns, r.Name)
+			}
+		}
+		if l, err := w.kube.Tracker().List(syPvcGVR, syPvcGVK, ns); err == nil {
+			for _, q := range l.(*v1.PersistentVolumeClaimList).Items {
+				_ = w.kube.Tracker().Delete(syPvcGVR, ns, q.Name)
+			}
+		}
+	}
+}
+
+var (
+	syRevsGVR = schema.GroupVersionResource{Group: "apps", Version: "v1", Resource: "controllerrevisions"}
+	syRevsGVK = schema.GroupVersionKind{Group: "apps", Version: "v1", Kind: "ControllerRevision"}
+	syPvcGVR  = schema.GroupVersionResource{Version: "v1", Resource: "persistentvolumeclaims"}
+	syPvcGVK  = schema.GroupVersionKind{Version: "v1", Kind: "PersistentVolumeClaim"}
+)
 
 // tplBad counts the created pods whose template (image) is not the one recorded by the revision their label names.
 func (w *syWorld) tplBad(c *syCase) int {
